@@ -83,7 +83,10 @@ def genMarkerMsg (version dom : Nat) (kn : KnownMap) : G (Msg × KnownMap × Lis
 
 def genHistory (pipe : String) (n : Nat) : G (List String) := do
   let exps ← genExporters
-  let domains ← listOf 3 (bitsVal 32)
+  -- observation domains / source ids that share their low 16 bits, their high 16 bits, or differ in one bit only
+  let b ← bitsVal 32
+  let domains ← pick [[b, (b + 65536) % 2 ^ 32, (b + 3 * 65536) % 2 ^ 32], [b, b ^^^ 1, b ^^^ 0x8000], [b, b ^^^ 0x80000000, (b + 65536) % 2 ^ 32],
+                      [b % 65536, b % 65536 + 65536, b % 65536 + 0x7fff0000]]
   let mut known : List (Scope × KnownMap) := []
   let mut out : List String := []
   let mut clock := 1700000000000000000
